@@ -595,6 +595,85 @@ func TestP5Interleaved(t *testing.T) {
 	})
 }
 
+// ---------------------------------------------------------------------------
+// a decoder reading from a decoder
+
+type nestedCase struct {
+	Inner pfbCase `json:"inner"`
+	// Cuts: the inner stream's bytes are carried by the text segments of an
+	// outer stream, cut after these many bytes each (cycled)
+	Cuts      []int `json:"cuts"`
+	OuterBufs []int `json:"outer_bufs"` // underlying read sizes of the outer stream (cycled); empty: all at once
+}
+
+func checkNested(c *nestedCase) string {
+	data, want, short := c.Inner.stream()
+	if short {
+		return ""
+	}
+	var outer []byte
+	rest := data
+	for k := 0; len(rest) > 0; k++ {
+		n := 1
+		if len(c.Cuts) > 0 {
+			n = c.Cuts[k%len(c.Cuts)]
+		}
+		if n < 1 {
+			n = 1
+		}
+		if n > len(rest) {
+			n = len(rest)
+		}
+		outer = append(outer, header(1, int64(n))...)
+		outer = append(outer, rest[:n]...)
+		rest = rest[n:]
+	}
+	outer = append(outer, 0x80, 0x03)
+	var src io.Reader = bytes.NewReader(outer)
+	if len(c.OuterBufs) > 0 {
+		src = &iofault.Chunks{Data: outer, Sizes: c.OuterBufs}
+	}
+	out, err, rule := readPattern(pfb.Decode(pfb.Decode(src)), c.Inner.Bufs, 2*len(data)+16, 0)
+	if rule != "" {
+		return "a decoder reading from a decoder: " + rule
+	}
+	if err != io.EOF {
+		return fmt.Sprintf("a decoder reading from a decoder (the outer stream carries the inner one in %d text segments): ended with err=%v, want io.EOF", bytes.Count(outer, []byte{0x80, 0x01}), err)
+	}
+	if !bytes.Equal(out, want) {
+		i := 0
+		for i < len(out) && i < len(want) && out[i] == want[i] {
+			i++
+		}
+		return fmt.Sprintf("a decoder reading from a decoder: output differs from the decoding of the inner stream at offset %d (got ...%q want ...%q); decoded from a plain reader the inner stream is right: %v", i, clip(out, i), clip(want, i), check(&c.Inner) == "")
+	}
+	return ""
+}
+
+func TestP6Nested(t *testing.T) {
+	rec := ev.New("C14", "nested")
+	defer rec.Finish(t)
+	rec.Rule("a decoder whose source is another decoder: a generated well-formed stream (the generator of the streams part) is carried, cut at drawn positions (1-9 bytes or up to 300, so that segment headers of the inner stream are split at every offset), by the text segments of an outer stream; Decode(Decode(outer)) read with the drawn buffer-size pattern must give the decoding of the inner stream and end with io.EOF. Non-trivial: the inner stream has >= 2 segments; distinct by streams and cuts.")
+	ev.SetupRapid(20000, 800000)
+	rapid.Check(t, func(t *rapid.T) {
+		c := &nestedCase{Inner: pfbCase{Segs: genSegs(t)}}
+		c.Inner.Marker = rapid.IntRange(0, 3).Draw(t, "marker") > 0
+		c.Inner.Bufs = genSizes(t, "buf", 1024)
+		c.Cuts = genSizes(t, "cut", 300)
+		if rapid.Bool().Draw(t, "outerchunked") {
+			c.OuterBufs = genSizes(t, "outerchunk", 64)
+		}
+		rec.Eval(1)
+		if len(c.Inner.Segs) >= 2 {
+			raw, _ := json.Marshal(c)
+			rec.NonTrivialHash(ev.Hash(string(raw)))
+		}
+		if msg := ev.Safe(func() string { return checkNested(c) }); msg != "" {
+			rec.Fail(t, msg, map[string]any{"nested": c})
+		}
+	})
+}
+
 func TestReplay(t *testing.T) {
 	rc, err := ev.LoadReplay()
 	if err != nil {
@@ -604,7 +683,14 @@ func TestReplay(t *testing.T) {
 		t.Skip("no VERIF_REPLAY")
 	}
 	var wrapped struct {
-		Inter *interCase `json:"interleaved"`
+		Inter  *interCase  `json:"interleaved"`
+		Nested *nestedCase `json:"nested"`
+	}
+	if json.Unmarshal(rc.Case, &wrapped) == nil && wrapped.Nested != nil {
+		if msg := ev.Safe(func() string { return checkNested(wrapped.Nested) }); msg != "" {
+			t.Fatalf("%s", msg)
+		}
+		return
 	}
 	if json.Unmarshal(rc.Case, &wrapped) == nil && wrapped.Inter != nil {
 		if msg := ev.Safe(func() string { return checkInter(wrapped.Inter) }); msg != "" {
